@@ -172,8 +172,28 @@ def points_for(pre, paths, syms, seed, per_path=1, extra_random=2, fixed=None):
 
 
 class XItem:
-    def __init__(self, key, module, func, params, args, pre, paths):
+    def __init__(self, key, module, func, params, args, pre, paths, ctor=None, pyx=None):
         self.key, self.module, self.func, self.params, self.args, self.pre, self.paths = key, module, func, params, args, pre, paths
+        self.ctor = ctor      # (class name, ctor args as symbolic values): call instance(*args) instead of module.func
+        self.pyx = pyx        # relpath of the .pyx the compiled module was built from (skipped when the source hash differs from the baseline)
+
+
+def binary_in_sync(relpath):
+    """the compiled extension reflects the source only while the .pyx is byte-identical to the pinned one"""
+    import hashlib, os
+    from . import REPO, VERIF
+    base = {}
+    try:
+        for ln in open(os.path.join(VERIF, "baseline", "pyx.sha256")):
+            h, f = ln.split()
+            base[f] = h
+    except OSError:
+        return False
+    try:
+        cur = hashlib.sha256(open(os.path.join(REPO, relpath), "rb").read()).hexdigest()
+    except OSError:
+        return False
+    return base.get(relpath) == cur
 
 
 def run_items(items, seed=0, rtol=1e-8, fixed=None):
@@ -183,8 +203,13 @@ def run_items(items, seed=0, rtol=1e-8, fixed=None):
     meta = []
     skipped = []
     for it in items:
+        if it.pyx and not binary_in_sync(it.pyx):
+            skipped.append(f"{it.key}: binary_stale=true ({it.pyx} differs from the pinned source; compiled module not consulted)")
+            continue
         syms = set()
         _symbols_of(list(it.args.values()), syms)
+        if it.ctor:
+            _symbols_of(list(it.ctor[1]), syms)
         for h in it.pre:
             syms |= getattr(h, "free_symbols", set())
         syms.discard(T.PI)
@@ -228,7 +253,14 @@ def run_items(items, seed=0, rtol=1e-8, fixed=None):
             except Exception as ex:
                 skipped.append(f"{it.key}: cannot evaluate at point ({type(ex).__name__} {ex})")
                 continue
-            jobs.append(dict(module=it.module, func=it.func, args=pos, kwargs=kw))
+            job = dict(module=it.module, func=it.func, args=pos, kwargs=kw)
+            if it.ctor:
+                try:
+                    job["ctor"] = [it.ctor[0], [_concretize(v, pt) for v in it.ctor[1]]]
+                except Exception as ex:
+                    skipped.append(f"{it.key}: cannot concretize constructor arguments ({ex})")
+                    continue
+            jobs.append(job)
             meta.append((it.key, expect, {str(k): float(v) for k, v in pt.items()}))
     if not jobs:
         return 0, [], skipped
@@ -279,9 +311,13 @@ out = []
 for job in args["jobs"]:
     try:
         mod = importlib.import_module(job["module"])
-        f = mod
-        for part in job["func"].split("."):
-            f = getattr(f, part)
+        if job.get("ctor"):
+            cls = getattr(mod, job["ctor"][0])
+            f = cls(tuple(job["ctor"][1])) if job["ctor"][1] else cls()
+        else:
+            f = mod
+            for part in job["func"].split("."):
+                f = getattr(f, part)
         r = f(*job["args"], **job["kwargs"])
         out.append({"result": enc(r)})
     except BaseException as ex:
